@@ -66,6 +66,8 @@ type VC struct {
 	atMatched map[string]bool // at-call anchors that matched a call site
 	old     *State
 	names   map[string]int // obligation name de-duplication
+	stores  map[Term]storeRec
+	refAx   map[string]bool
 	dry     int            // >0: dry run (loop scanning); output discarded
 	err     error
 	cover   Term   // disjunction of the guards of all returns (vacuity check)
@@ -203,6 +205,46 @@ func (vc *VC) colSet(st *State, col string, s Sort, v Term) {
 	st.heap[col] = vc.define("H_"+col, s, v)
 }
 
+// storeRec remembers how a column version was built from its predecessor by a
+// single store, so that specification reads can be expanded to
+// read-over-write form (which exposes the predecessor's select terms to
+// quantifier instantiation).
+type storeRec struct {
+	prev Term
+	key  Term
+	idx  Term // "" for one-level columns
+	val  Term
+}
+
+func (vc *VC) colSetStore(st *State, col string, s Sort, prev, key, idx, val Term) {
+	var t Term
+	if idx == "" {
+		t = mkSto(prev, key, val)
+	} else {
+		t = mkSto(prev, key, mkSto(mkSel(prev, key), idx, val))
+	}
+	vc.colSet(st, col, s, t)
+	if vc.stores == nil {
+		vc.stores = map[Term]storeRec{}
+	}
+	vc.stores[st.heap[col]] = storeRec{prev, key, idx, val}
+}
+
+// readCol reads column version h at (key[, idx]) in read-over-write form.
+func (vc *VC) readCol(h, key, idx Term, depth int) Term {
+	if rec, ok := vc.stores[h]; ok && depth < 8 && (rec.idx == "") == (idx == "") {
+		rest := vc.readCol(rec.prev, key, idx, depth+1)
+		if idx == "" {
+			return mkIte(mkEq(key, rec.key), rec.val, rest)
+		}
+		return mkIte(mkAnd(mkEq(key, rec.key), mkEq(idx, rec.idx)), rec.val, rest)
+	}
+	if idx == "" {
+		return mkSel(h, key)
+	}
+	return mkSel(mkSel(h, key), idx)
+}
+
 // LV is a statically resolved location: a set of leaf columns addressed by an
 // object reference and, inside slices/arrays, an index.
 type LV struct {
@@ -273,12 +315,35 @@ func (vc *VC) lvLeafCol(lv *LV, l Leaf) (string, Sort, bool) {
 	return name, arrOf(leafSort), false
 }
 
+// refColumn: every reference stored in the pre-state heap is allocated in the
+// pre-state (one quantified axiom per reference-valued column).
+func (vc *VC) refColumn(col string, s Sort, l Leaf) {
+	if l.Kind != LRef && l.Kind != LArr {
+		return
+	}
+	if vc.refAx == nil {
+		vc.refAx = map[string]bool{}
+	}
+	if vc.refAx[col] {
+		return
+	}
+	vc.refAx[col] = true
+	h := vc.colInit(col, s)
+	switch s {
+	case SArrInt:
+		vc.assertGlobal(fmt.Sprintf("(forall ((r Int)) (and (<= 0 (select %s r)) (< (select %s r) alloc0)))", h, h))
+	case SArr2Int:
+		vc.assertGlobal(fmt.Sprintf("(forall ((r Int) (i Int)) (and (<= 0 (select (select %s r) i)) (< (select (select %s r) i) alloc0)))", h, h))
+	}
+}
+
 // load reads the content of lv from the heap of st.
 func (vc *VC) load(st *State, lv *LV) SV {
 	sh := vc.e.shape(lv.Typ)
 	out := SV{Typ: lv.Typ}
 	for _, l := range sh.Leaves {
 		col, s, two := vc.lvLeafCol(lv, l)
+		vc.refColumn(col, s, l)
 		h := vc.colGet(st, col, s)
 		var t Term
 		if two {
@@ -314,9 +379,9 @@ func (vc *VC) store(st *State, lv *LV, v SV) {
 		col, s, two := vc.lvLeafCol(lv, l)
 		h := vc.colGet(st, col, s)
 		if two {
-			vc.colSet(st, col, s, mkSto(h, lv.Ref, mkSto(mkSel(h, lv.Ref), lv.Idx, v.T[i])))
+			vc.colSetStore(st, col, s, h, lv.Ref, lv.Idx, v.T[i])
 		} else {
-			vc.colSet(st, col, s, mkSto(h, lv.Ref, v.T[i]))
+			vc.colSetStore(st, col, s, h, lv.Ref, "", v.T[i])
 		}
 	}
 }
